@@ -321,6 +321,48 @@ __CPROVER_ensures(g.moves == (g_ref == 1 ? 1 : 0) && g.copies == (g_ref == 1 ? 0
 void harness(void) { ghost_reset(); Core* a; Retire(a); if (g.moves) VF_CANARY("last observer moves"); else VF_CANARY("copies"); }
 '''
     job('SharedCore.Retire', b, src, 'Retire', ['GetRef', 'DecRef'], canaries=2)
+    # ---- SharedFutureBase: Get && / Touch && (move only as the provably last holder), Get const& / Touch const& (never move), Detach ----------------------------
+    F_SF = 'include/yaclib/async/shared_future.hpp'
+    WS = r'class\s+SharedFutureBase\s*\{'
+    sf_pre = [(r'Valid\(\)', '(self->_core != 0)', 0), (r'\bReady\(\)', 'READY(self)', 0), (r'Wait\(\s*\*this\s*\)\s*;', 'WaitReady(self);', 0), (r'_core->GetRef\(\)', 'GetRef(self->_core)', 0),
+              (r'return\s+std::move\(\s*_core->Get\(\)\s*\)\s*;', 'return MOVE_GET(self->_core);', 0), (r'return\s+_core->Get\(\)\s*;', 'return CONST_GET(self->_core);', 0), (r'_core\s*=\s*nullptr\s*;', 'HANDLE_ASSIGN_NULL(self);', 0)]
+    sf_common = COMMON + retire_prelude + '''unsigned char g_ready;
+void WaitReady(Handle* f) __CPROVER_requires(f->_core != 0) __CPROVER_assigns(g.waits, g_ready) __CPROVER_ensures(g.waits == OLD(g.waits) + 1 && g_ready == 1);
+int READY(Handle* f) __CPROVER_assigns() __CPROVER_ensures(RET == g_ready);
+static inline Res take_ready(Core* c, int move) { __CPROVER_assert(g_ready, "C06: the Result is read only once it is there"); return take(c, move); }
+#undef MOVE_GET
+#undef CONST_GET
+#define MOVE_GET(c) take_ready(c, 1)
+#define CONST_GET(c) take_ready(c, 0)
+/* IntrusivePtr::operator=(nullptr): gives back the one reference the handle stands for (unit intrusive_ptr) */
+static inline void HANDLE_ASSIGN_NULL(Handle* h) { if (h->_core != 0) DecRef(h->_core); h->_core = 0; }
+'''
+    for nm, sig, waits, rv in (('Get.rvalue', r'Result<V,\s*E>\s+Get\s*\(\s*\)\s*&&\s*noexcept', 1, 1), ('Touch.rvalue', r'Result<V,\s*E>\s+Touch\s*\(\s*\)\s*&&\s*noexcept', 0, 1),
+                               ('Get.const', r'const\s+Result<V,\s*E>\s*&\s*Get\s*\(\s*\)\s*const\s*&\s*noexcept', 1, 0), ('Touch.const', r'const\s+Result<V,\s*E>\s*&\s*Touch\s*\(\s*\)\s*const\s*&\s*noexcept', 0, 0)):
+        b = find_body(repo, F_SF, sig, 'SharedFutureBase::' + nm, within=WS)
+        c = rw('SharedFuture::' + nm, pre=sf_pre).rewrite(b.text)
+        src = sf_common + '''Res F(Handle* self)
+__CPROVER_requires(__CPROVER_is_fresh(self, sizeof(*self)) && __CPROVER_is_fresh(self->_core, sizeof(Core)) && g.waits == 0 && g.decrefs == 0 && g.moves == 0 && g.copies == 0 && (%d ? !g_ready : g_ready))
+__CPROVER_assigns(g.waits, g_ready, g.moves, g.copies, g.t_move, g.clock, self->_core->_result.moved_from)
+/* C06: a SharedFuture's value is read only after it is there (Get waits first), through a const reference unless this rvalue holder is provably the only reference left (GetRef() == 1): only then it may be moved out;
+   the handle keeps its reference (its destructor gives it back) */
+__CPROVER_ensures(RET.state == OLD(self->_core->_result.state) && RET.tag == OLD(self->_core->_result.tag) && g.waits == %d && self->_core == OLD(self->_core) && g.decrefs == 0)
+__CPROVER_ensures(%s)
+{''' % (waits, waits, '(g.moves == (g_ref == 1 ? 1 : 0) && g.copies == (g_ref == 1 ? 0 : 1))' if rv else '(g.moves == 0 && g.copies == 1)') + c + '''}
+void harness(void) { ghost_reset(); Handle* f; F(f); if (g.moves) VF_CANARY("last holder moves"); else VF_CANARY("reads"); }
+'''
+        job('SharedFuture.' + nm, b, src, 'F', ['WaitReady', 'READY', 'GetRef'], canaries=2 if rv else 1)
+    b = find_body(repo, F_SF, r'void\s+Detach\s*\(\s*\)\s*&&\s*noexcept', 'SharedFutureBase::Detach', within=WS)
+    c = rw('SharedFuture::Detach', pre=sf_pre).rewrite(b.text)
+    src = sf_common + '''void F(Handle* self)
+__CPROVER_requires(__CPROVER_is_fresh(self, sizeof(*self)) && g.decrefs == 0)
+__CPROVER_assigns(self->_core, g.decrefs, g.decref_of, g.t_decref, g.clock)
+/* dropping one copy of a SharedFuture gives back exactly its own reference; the shared state lives on for the other holders */
+__CPROVER_ensures(self->_core == 0 && g.decrefs == (OLD(self->_core) != 0 ? 1 : 0) && (OLD(self->_core) != 0 ==> g.decref_of == OLD(self->_core)))
+{''' + c + '''}
+void harness(void) { ghost_reset(); Handle* f; F(f); VF_CANARY("end"); }
+'''
+    job('SharedFuture.Detach', b, src, 'F', ['DecRef'])
     b = find_body(repo, F_RC, r'auto\s+Impl\s*\(\s*InlineCore\s*&\s*caller\s*\)\s*noexcept', 'ResultCore::Impl')
     pre = [(r'std::is_copy_constructible_v<Result<V,\s*E>>', 'COPY_CTOR', 0), (r'std::is_move_constructible_v<Result<V,\s*E>>', 'MOVE_CTOR', 0),
            (r'ResultCore<V,\s*E>::Store\(\s*std::move\(\s*DownCast<ResultCore<V,\s*E>>\(caller\)\.Get\(\)\s*\)\s*\)\s*;', 'StoreRes(self, MOVE_GET(caller));', 0),
